@@ -325,6 +325,7 @@ def run_case(ch: Choices, params: dict) -> dict:
             h1 = base.with_shots(v).with_seed(sd)
             rec1 = copy.deepcopy(records[0])
             rec1["shots"], rec1["seed"] = v, sd
+            rec1["sim"] = (rec1["sim"][0], sd, rec1["sim"][2])   # with_seed seeds the simulator
             handles.append(h1)
             records.append(rec1)
             runs_seen.append([])
